@@ -206,6 +206,9 @@ func (c *Ctx) runFunc(name string, pol pw.Policy) (*pw.Engine, []*pw.Path, *type
 	if pol.Role == nil {
 		pol.Role = BaseRole
 	}
+	if pol.Inline == nil {
+		pol.Inline = inlineUnexported
+	}
 	if pol.Pure == nil {
 		pol.Pure = basePure
 	}
@@ -604,3 +607,11 @@ func (c *Ctx) traitTTLRule(rule string) {
 		r.OK(rule, "Trait.TTL", fmt.Sprintf("%d paths", n))
 	}
 }
+
+// inlineUnexported is the default inlining policy: unexported functions and methods of the subject package are
+// interpreted at their call sites, so extracting a helper (or merging one) does not change what a rule sees.
+func inlineUnexported(fn *types.Func, depth int) bool {
+	return !fn.Exported() && fn.Pkg() != nil && fn.Pkg().Name() == "cache"
+}
+
+func noInline(*types.Func, int) bool { return false }
